@@ -264,6 +264,8 @@ class AmountApiStream(Stream):
                 req = "both" if i % 3 < 2 else rng.choice(["cpr", "lic"])
                 n = rng.choice([2, 3, 3, 4])
                 files = [f for f in make_files(rng, template, req, n) if f.get("where") != "sib"]
+                if len(files) < 2:
+                    continue
                 main = files[0]["kind"]
                 for f in files:
                     f["kind"] = main
